@@ -36,6 +36,7 @@ func main() {
 	list := flag.Bool("list", false, "list properties")
 	overlayFlag := flag.String("overlay", "", "development: comma-separated repoFile=replacementFile pairs analysed instead of the files on disk (mutation sweeps); never used by registered commands")
 	flag.Parse()
+	verifRoot = *verif
 
 	if *list {
 		var ids []string
@@ -101,6 +102,7 @@ func main() {
 					}
 				}()
 				pc.Run(r)
+				runGeneric(r, pc.ID)
 			}()
 			if c := r.Finish(*verif, 0); c > worst {
 				worst = c
@@ -136,6 +138,7 @@ func main() {
 		}()
 		runControls(r)
 		pc.Run(r)
+		runGeneric(r, pc.ID)
 	}()
 	if *tier == "thorough" {
 		runMutants(pc, r, *repo)
